@@ -44,10 +44,17 @@ def world_history(seed, k):
                 traces.append(dict(id='E%d_%d' % (k, seg), mode='seq', init=init, steps=steps))
                 seg += 1
             x, y = rng.sample(w.names, 2)
-            part = u < 0.12 and w.feed_part(y, x, rng)
-            if not part:
+            relabel = u < 0.04 and w.relabel(x)
+            part = not relabel and u < 0.12 and w.feed_part(y, x, rng)
+            if not part and not relabel:
                 w.feed(x, rng)
             init, steps, last_mix = w.project(), [], None
+            if relabel:
+                # the slot's phase was switched at unchanged T, P and flows after its enthalpy had been read: assigning the
+                # enthalpy it has now must leave the temperature where it is
+                op = rng.choice(['set_same_H', 'set_same_H', 'set_same_h'])
+                obs = w.apply(op, dict(x=x))
+                steps.append(dict(op=op, a=dict(x=x), post=w.project(), obs=obs))
             if part:
                 a = dict(x=x, y=y, reach=w.sep_reach(x, y))
                 obs = w.apply('separate', a)
